@@ -7,11 +7,12 @@ package main
 //	fc <selfkey> <requesterenr> <askerip:port> <contentkey> <F:contenthex | N | E> <enrhex:live,...> ; <requester id> <content id> <table records in nodeList order>
 //	     | raw <replylen> <hex> / connid <replylen> / enrs <replylen> <tags> / err
 //	pc <selfkey> <senderenr> <resphex> <genflags> ; <senderrec> <E | recs> | raw <hex> / connid <hex> / enrs <tags> / err / panic
-//	uc <own versions> <peer pv entry: M (missing) | E (empty) | X (malformed) | digits> <enc|dec> <hex> | ok <hex> / err
+//	uc <own versions> <peer pv entry: M (missing) | E (empty) | X (malformed) | digits> <enc|dec> <hex> <pv entry of an older record of the peer held by the table | ~> | ok <hex> / err
 //	     encodeUtpContent / decodeUtpContent INCLUDING the version lookup on the peer's record (versions: an x suffix below = no pv entry advertised)
 //	lfc <versionsA> <versionsB> <size> ; <sha256 of the stored bytes> | ok <selector> <len> <sha256 of what the asker got> <largest datagram> / err
 //	lfe <versionsA> <versionsB> ; <asker id> <content id> <responder table records> | ok <tags the asker got> <largest datagram> / err
 import (
+	"crypto/ecdsa"
 	"crypto/sha256"
 	"fmt"
 	"math/big"
@@ -151,7 +152,7 @@ func c08execPc(c *Ctx, keyhex string, senderEnr []byte, resp []byte, gen string)
 		ns := out.([]*enode.Node)
 		tags := make([]string, len(ns))
 		for i, n := range ns {
-			if v, ok := t.lookup(hEnrBytes(n)); ok {
+			if v, ok := t.lookupNode(n); ok {
 				tags[i] = strconv.Itoa(v)
 			} else {
 				tags[i] = "?"
@@ -183,9 +184,8 @@ func c08verInst(r *Rng, own string) *portalwire.VerifHInstance {
 }
 
 // c08execUc: stream framing for a fresh peer whose record carries the given pv entry (no cached version).
-func c08execUc(c *Ctx, r *Rng, own, pv, op string, data []byte) {
-	inst := c08verInst(r, own)
-	k := hKey(r)
+// c08peerRecord: a signed record of key k with the given sequence number and pv entry (M missing, E empty, X malformed, digits).
+func c08peerRecord(k *ecdsa.PrivateKey, seq uint64, pv string) *enode.Node {
 	var rec enr.Record
 	rec.Set(enr.IPv4(net.IPv4(127, 0, 0, 1)))
 	rec.Set(enr.UDP(30303))
@@ -202,12 +202,32 @@ func c08execUc(c *Ctx, r *Rng, own, pv, op string, data []byte) {
 		}
 		rec.Set(enr.WithEntry("pv", b))
 	}
+	rec.SetSeq(seq)
 	if err := enode.SignV4(&rec, k); err != nil {
 		panic(err)
 	}
-	peer, err := enode.New(enode.ValidSchemes, &rec)
+	n, err := enode.New(enode.ValidSchemes, &rec)
 	if err != nil {
 		panic(err)
+	}
+	return n
+}
+
+// c08execUc: stream framing for a fresh peer whose record carries the given pv entry (no cached version).  tablepv != "~": the
+// routing table already holds an OLDER record of the same peer (lower sequence number) with that pv entry - the peer has since
+// been upgraded / downgraded; the version must be negotiated from the record in hand.
+func c08execUc(c *Ctx, r *Rng, own, pv, op string, data []byte, tablepv string) {
+	inst := c08verInst(r, own)
+	k := hKey(r)
+	peer := c08peerRecord(k, 2, pv)
+	if tablepv != "~" {
+		if err := inst.ResetTable(); err != nil {
+			panic(err)
+		}
+		inst.AddNode(c08peerRecord(k, 1, tablepv), true, false)
+		if !inst.InTable(peer.ID()) {
+			tablepv = "~" // could not be inserted: an ordinary case
+		}
 	}
 	var out []byte
 	var oerr error
@@ -228,15 +248,25 @@ func c08execUc(c *Ctx, r *Rng, own, pv, op string, data []byte) {
 		obs = "ok " + hx(out)
 	}
 	c.Count("uc_" + op + "_peer_" + pv)
-	c.Emit("uc %s %s %s %s | %s", own, pv, op, hx(data), obs)
+	if tablepv != "~" {
+		c.Count("uc_stale_record_in_table")
+	}
+	c.Emit("uc %s %s %s %s %s | %s", own, pv, op, hx(data), tablepv, obs)
 }
 
 func c08ucCase(c *Ctx, r *Rng) {
 	own := r.Pick2([]string{"01", "01", "0", "1"})
 	pv := r.Pick2([]string{"M", "M", "M", "0", "1", "01", "10", "2", "12", "E", "X"})
 	d := r.Bytes(r.Pick([]int{0, 1, 5, 127, 128, 300, 1176, 3000}))
+	tablepv := "~"
+	if r.Intn(3) == 0 { // the table holds an older record of the peer with another pv entry (upgrade 0 -> 01, downgrade 01 -> 0, ...)
+		tablepv = r.Pick2([]string{"0", "0", "01", "01", "1", "M"})
+		if r.Bool() {
+			pv = r.Pick2([]string{"01", "0", "1", "M"})
+		}
+	}
 	if r.Bool() {
-		c08execUc(c, r, own, pv, "enc", d)
+		c08execUc(c, r, own, pv, "enc", d, tablepv)
 		return
 	}
 	// something to decode: a v1-framed item, a bare item, or a damaged frame
@@ -246,7 +276,7 @@ func c08ucCase(c *Ctx, r *Rng) {
 	case 1:
 		d = append(portalwire.VerifHEncodeSingle(d), 0)
 	}
-	c08execUc(c, r, own, pv, "dec", d)
+	c08execUc(c, r, own, pv, "dec", d, tablepv)
 }
 
 func c08replay(c *Ctx, lines []string) {
@@ -259,7 +289,11 @@ func c08replay(c *Ctx, lines []string) {
 		case "fc":
 			c08execFc(c, f[1], unhx(f[2]), f[3], unhx(f[4]), f[5], c11parseIns(f[6]))
 		case "uc":
-			c08execUc(c, NewRng(c.Seed), f[1], f[2], f[3], unhx(f[4]))
+			tp := "~"
+			if len(f) > 5 {
+				tp = f[5]
+			}
+			c08execUc(c, NewRng(c.Seed), f[1], f[2], f[3], unhx(f[4]), tp)
 		case "pc":
 			g := f[4]
 			if g == "-" {
@@ -570,7 +604,7 @@ func c08live(c *Ctx, r *Rng, quick bool) {
 					if ns, ok := got.([]*enode.Node); ok && flag == portalwire.ContentEnrsSelector {
 						tags := make([]string, len(ns))
 						for j, n := range ns {
-							if v, ok := t.lookup(hEnrBytes(n)); ok {
+							if v, ok := t.lookupNode(n); ok {
 								tags[j] = strconv.Itoa(v)
 							} else {
 								tags[j] = "?"
